@@ -75,7 +75,7 @@ Lemma one_exit_per_block c s la lq la' lq' :
   Full s la lq -> WF (step c s OBlock) la' lq' ->
   forall a, In a la -> ~ In a la' -> a = get_exit s (blk s + 1).
 Proof.
-  intros HF W' a Ha Hn. destruct (block_step_Full c s la lq HF) as [la1 [lq1 [F1 Sub]]].
+  intros HF W' a Ha Hn. destruct (block_step_Full c s la lq HF) as [la1 [lq1 [F1 [Sub _]]]].
   rewrite (WF_active_unique _ _ _ _ _ W' (f_wf _ _ _ F1)) in Hn.
   destruct (N.eq_dec a (get_exit s (blk s + 1))); auto. exfalso. apply Hn, Sub; auto.
 Qed.
